@@ -47,10 +47,49 @@ def ss_table(ss):
     rec = ss.record; vs = list(ss.variables)
     return (ss.vartype.name, {v: [F(float(x)) for x in rec.sample[:, j]] for j, v in enumerate(vs)},
             {f: np.asarray(rec[f]).tolist() for f in rec.dtype.names if f != 'sample'}, deep(ss.info))
+def table(x):
+    """a plain comparable value for every kind of object reachable from a model or a sample set: models and their vartype views,
+    Linear / Quadratic / Adjacency views, Variables, sample sets, records, arrays, Sample tuples, containers"""
+    import collections.abc as abc
+    if isinstance(x, dimod.SampleSet):
+        return ('SampleSet',) + ss_table(x)
+    if isinstance(x, dimod.BinaryQuadraticModel):
+        return ('BQM', x.dtype.name) + bqm_table(x)         # pickle re-orders the variables (sorted labels): order is not compared
+    if isinstance(x, dimod.QuadraticModel):
+        return ('QM', x.dtype.name, [(v, x.vartype(v).name, F(float(x.get_linear(v))), F(float(x.lower_bound(v))), F(float(x.upper_bound(v)))) for v in x.variables],
+                {frozenset((u, v)) if u != v else (u,): F(float(b)) for u, v, b in x.iter_quadratic()}, F(float(x.offset)))
+    if isinstance(x, dimod.variables.Variables):
+        return ('Variables', list(x))
+    if isinstance(x, np.ndarray) and x.dtype.names:
+        return ('record', tuple(x.shape), {f: table(np.array(x[f]).view(np.ndarray)) for f in x.dtype.names})
+    if isinstance(x, np.ndarray):
+        return ('array', str(x.dtype), tuple(x.shape), x.tolist())
+    if isinstance(x, np.generic):
+        return ('scalar', x.dtype.name, x.item())
+    if type(x).__name__ == 'Quadratic':
+        return ('Quadratic', {frozenset(k): F(float(b)) for k, b in x.items()})
+    if isinstance(x, abc.Mapping):
+        return ('map', type(x).__name__ if not isinstance(x, dict) else 'dict', {k: table(v) for k, v in x.items()})
+    if isinstance(x, (list, tuple)):
+        return ('seq', type(x).__name__, [table(v) for v in x])
+    if isinstance(x, (int, float)) and not isinstance(x, bool):
+        return F(x) if x == x and x not in (float('inf'), float('-inf')) else repr(x)
+    return x
 '''
 _env = {}
 exec(PRE, _env)
-bqm_table, ss_table, deep = _env['bqm_table'], _env['ss_table'], _env['deep']
+bqm_table, ss_table, deep, table = _env['bqm_table'], _env['ss_table'], _env['deep'], _env['table']
+
+BIG_INTEGRAL = [2.0 ** 63, -2.0 ** 63, 1e19, 3e19, -2e19, 2.0 ** 64, 1e20, -3e25, 2.0 ** 63 + 2048.0, 7.0, -5.0, 0.0, 4.0]     # all integer valued
+
+
+def big_row(r, k):
+    """k integer-valued floats, at least one of magnitude >= 2**63 (when k > 0)"""
+    xs = [r.choice(BIG_INTEGRAL) for _ in range(k)]
+    if xs:
+        xs[r.randrange(k)] = r.choice(BIG_INTEGRAL[:9])
+    return xs
+
 
 LABEL_POOLS = [
     [0, 1, 2, 3, 4],
@@ -152,6 +191,8 @@ def gen_info(r, depth=0):
         vals = [r.randint(0, 1) if dt == 'bool' else (r.randint(0, 9) if dt.startswith(('int', 'uint')) and dt != 'int8' and r.random() < .5 else
                                                       r.randint(-9, 9) if dt.startswith('int') else r.randint(0, 9) if dt == 'uint32' else r.randint(-16, 16) / 4)
                 for _ in range(cnt)]
+        if dt.startswith('float') and r.random() < .3:
+            vals = big_row(r, cnt)
         layout = r.choice(['', '', '.T', '.T', '[::-1]', '.copy(order=\'F\')']) if len(shape) == 2 else r.choice(['', '', '[::-1]', '[::2]']) if len(shape) == 1 else ''
         return f"np.array({vals!r}, dtype='{dt}').reshape({shape!r}){layout}"
     if k < .8:
@@ -181,6 +222,13 @@ def gen_ss_src(r):
     en = [r.randint(-40, 40) / 8 for _ in range(m)]
     occ = [r.randint(1, 4) for _ in range(m)]
     vec = ''
+    big = r.random() < .2                 # integer-valued floats beyond the int64 range in energies / extra vectors / REAL samples
+    if big and vt == 'REAL' and r.random() < .6:
+        rows = [big_row(r, n) for _ in range(m)]
+    if big and r.random() < .4:
+        vec += f", wt=np.array({big_row(r, m)!r}, dtype='{r.choice(['float32', 'float64'])}')"
+    if big and r.random() < .3:
+        vec += f", wm=np.array({[big_row(r, 2) for _ in range(m)]!r}, dtype=float).reshape({m}, 2)"
     if r.random() < .5:
         vec += f", ex=np.array({[r.randint(-5, 5) for _ in range(m)]!r}, dtype='{r.choice(['int8', 'int64', 'float64'])}')"
     if r.random() < .3:
@@ -189,6 +237,8 @@ def gen_ss_src(r):
         vec += f", ev=np.array({[[r.randint(-8, 8) / 4, r.randint(0, 3)] for _ in range(m)]!r}, dtype=float).reshape({m}, 2)"
     info = '{' + ', '.join(f"'{key}': {gen_info(r)}" for key in r.sample(['timing', 'msg', 'data', 'n'], r.randint(0, 3))) + '}'
     endt = r.choice(['float', 'float', 'float32', 'int'])
+    if big and r.random() < .7:
+        en = big_row(r, m); endt = r.choice(['float', 'float32'])
     if endt == 'int':
         en = [int(e) for e in en]
     src = (f"ss = dimod.SampleSet.from_samples((np.array({rows!r}, dtype='{dt}').reshape({m}, {n}), {lsrc(labels)}), {vt!r}, "
@@ -290,6 +340,23 @@ def check_bqm(ctx, r, lines, expect, meta):
     expect.append('ok ' + ratl(doc['linear_biases']) + ' '
                   + (';'.join(f'{a}:{b}:{rat(c)}' for a, b, c in zip(doc['quadratic_head'], doc['quadratic_tail'], doc['quadratic_biases'])) or '-'))
     meta.append(('BQM.to_serializable vectors', src))
+    # the tuple `cyBQM.__reduce__` hands to pickle (`DimodModel/PickleReduce.lean`): callable, vectors, vartype, labels
+    if type(bqm.data).__name__.startswith('cyBQM'):
+        fn, args = bqm.data.__reduce__()
+        ld, (ir, ic, qd), off_, vt_, labels_ = args
+        ctx.tick('bqm __reduce__ tuple'); ctx.case(('bqm reduce', src), nontrivial=len(labs) > 0)
+        rebuilt = fn(*args)
+        if (getattr(fn, '__name__', '') != 'from_numpy_vectors' or vt_ is not bqm.vartype or F(float(off_)) != F(float(bqm.offset)) or sorted(map(repr, labels_)) != sorted(map(repr, labs))
+                or {v: F(float(rebuilt.get_linear(v))) for v in rebuilt.variables} != {v: F(float(bqm.get_linear(v))) for v in labs}
+                or {frozenset((u, v)): F(float(b)) for u, v, b in rebuilt.iter_quadratic()} != {frozenset((u, v)): F(float(b)) for u, v, b in bqm.iter_quadratic()}):
+            ctx.fail('property', 'BQM pickle', 'the __reduce__ tuple', f'`fn(*args)` of `bqm.data.__reduce__()` does not rebuild the model: {args!r}',
+                     repro=PRE + src + '\nfn, args = bqm.data.__reduce__()\nnew = dimod.BinaryQuadraticModel(bqm.vartype); new.data = fn(*args)\nassert bqm_table(new) == bqm_table(bqm), args', detail=dict(source=src))
+        else:
+            rorder = [labs.index(v) for v in labels_]
+            lines.append('cyreduce ' + (','.join(map(str, rorder)) or '-') + ' ' + ratl(lin) + ' ' + (';'.join(f'{a}:{b}:{rat(c)}' for a, b, c in quad) or '-'))
+            expect.append('ok ' + ratl(ld) + ' ' + (';'.join(f'{a}:{b}:{rat(c)}' for a, b, c in zip(ir.tolist(), ic.tolist(), qd.tolist())) or '-')
+                          + ' ' + (','.join(map(str, rorder)) or '-'))
+            meta.append(('cyBQM.__reduce__ vectors', src))
     # the label order of the document is the sorted one whenever the labels are mutually comparable
     try:
         comparable = all((a < b) or True for a in labs for b in labs)
@@ -438,6 +505,8 @@ def check_ndarray(ctx, r, lines, expect, meta):
     elif dt.startswith('int'):
         bits = 8 * np.dtype(dt).itemsize
         vals = [r.choice([r.randint(-100, 100), -2 ** (bits - 1), 2 ** (bits - 1) - 1, -1, r.randint(-2 ** (bits - 1), 2 ** (bits - 1) - 1)]) for _ in range(cnt)]
+    elif r.random() < .25:
+        vals = big_row(r, cnt)
     else:
         vals = [r.choice([0.0, 1.0, -2.0, 3.5, -0.125, 100.0, 2.75]) for _ in range(cnt)]
     layout = (r.choice(['', '', '.T', '[::-1]', ".copy(order='F')", '[:, ::-1]', '[::2]']) if len(shape) == 2 else
@@ -686,6 +755,88 @@ def check_coo_text(ctx, r, tlines, texpect, tmeta):
     tlines.append(f"cooload {marg or '-'} {mtext.encode().hex()}."); texpect.append(got); tmeta.append(('coo.loads of mutated text', repr(mtext), mtext))
 
 
+# ------------------------------------------------------------------ object graphs: views, expression views, held aliases
+
+GRAPH_ROUTES = [('deepcopy', 'new = copy.deepcopy(box)'), ('pickle', 'new = pickle.loads(pickle.dumps(box))'),
+                ('pickle protocol 2', 'new = pickle.loads(pickle.dumps(box, protocol=2))')]
+
+
+def check_graph(ctx, r):
+    """ONE copy.deepcopy / pickle call over a container holding several objects reachable from one model (the model, its
+    other-vartype view, the view's view back (= the model), Linear / Quadratic / Adjacency / Variables of either) or from one
+    sample set (record, variables, info, data vectors, first), in any order, and copy.copy / deepcopy / pickle of each such object
+    alone, also after the attribute caches (`_spin` / `_binary`) were filled: every member of the result must reproduce its
+    original, the originals must read as before, members that were one object stay one object, and a round-tripped model must
+    still own its vartype view (an edit of the copy shows in the copy's view)."""
+    if r.random() < .65:
+        src, cls = gen_bqm_src(r)
+        vt = 'SPIN' if "'SPIN')" in src.split('\n')[0] else 'BINARY'
+        o, same = ('binary', 'spin') if vt == 'SPIN' else ('spin', 'binary')
+        pool = ['bqm', f'bqm.{o}', f'bqm.{o}', f'bqm.{same}', f'bqm.{o}.{same}', 'bqm.linear', 'bqm.quadratic', 'bqm.adj', 'bqm.variables',
+                f'bqm.{o}.linear', f'bqm.{o}.quadratic', f'bqm.{o}.adj', f'bqm.{o}.variables', f'bqm.{o}.{o}']
+        kind = 'BQM'
+        if r.random() < .5:
+            src += f'\n_ = bqm.{o}.offset'        # fill the attribute cache before anything is copied
+    else:
+        src, vt, dt, m, n = gen_ss_src(r)
+        pool = ['ss', 'ss', 'ss.record', 'ss.variables', 'ss.info', 'ss.record.sample', 'ss.record.energy', 'ss.data_vectors'] + (['ss.first'] if m else [])
+        kind = 'SampleSet'; o = None
+    k = r.choice([1, 1, 2, 2, 2, 3, 4])
+    exprs = [r.choice(pool) for _ in range(k)]
+    if kind == 'BQM' and k >= 2 and r.random() < .5:
+        exprs[r.randrange(k)] = 'bqm'; exprs[r.randrange(k)] = f'bqm.{o}'      # the model AND its view in one call (either order)
+    rname, rcode = r.choice(GRAPH_ROUTES)
+    if k == 1 and r.random() < .5:
+        rname, rcode = ('copy.copy', 'new = [copy.copy(box[0])]')
+    if rname.startswith('pickle'):
+        exprs = [e for e in exprs if e != 'ss.first'] or ['ss']        # the Sample namedtuple is not importable: pickle refuses it
+    shape = r.choice(['list', 'tuple', 'dict']) if rname != 'copy.copy' else 'list'
+    if shape == 'dict':
+        box = 'box = {' + ', '.join(f"'k{i}': {e}" for i, e in enumerate(exprs)) + '}'
+        items = [f"'k{i}'" for i in range(len(exprs))]
+    else:
+        box = 'box = ' + ('[' if shape == 'list' else '(') + ', '.join(exprs) + (',' if len(exprs) == 1 else '') + (']' if shape == 'list' else ')')
+        items = [str(i) for i in range(len(exprs))]
+    code = (box + '\nbefore = [table(box[i]) for i in (' + ', '.join(items) + ',)]\n' + rcode +
+            '\nafter = [table(box[i]) for i in (' + ', '.join(items) + ',)]\ngot = [table(new[i]) for i in (' + ', '.join(items if rname != 'copy.copy' else ['0']) + ',)]'
+            '\nalias = [(i, j) for i in (' + ', '.join(items) + ',) for j in (' + ', '.join(items) + ',) if box[i] is box[j] and new[i] is not new[j]]' if rname != 'copy.copy' else
+            box + '\nbefore = [table(box[0])]\n' + rcode + '\nafter = [table(box[0])]\ngot = [table(new[0])]\nalias = []')
+    site = f'{kind} object graph {rname}'
+    icls = ('model together with its vartype view' if kind == 'BQM' and 'bqm' in exprs and f'bqm.{o}' in exprs else
+            'vartype view' if kind == 'BQM' and any(e.startswith(f'bqm.{o}') for e in exprs) else 'objects reachable from one ' + kind)
+    rp = PRE + src + '\n' + code + '\nassert got == before == after and not alias, (got, before, after, alias)'
+    ctx.tick(f'graph {kind} {rname}: ' + icls)
+    for e in set(exprs):
+        ctx.tick('graph member ' + (e.replace('binary', 'VIEW').replace('spin', 'VIEW') if kind == 'BQM' and e.startswith(f'bqm.{o}') else e.replace('.binary', '.SELF').replace('.spin', '.SELF')))
+    ctx.case(('graph', src, code), nontrivial=k >= 1, sample=dict(source=src, route=code) if icls.startswith('model together') else None)
+    try:
+        env = run_route(src, code)
+        env['got'] != env['before']
+    except Exception as e:  # noqa
+        ctx.fail('property', site, icls, f'{type(e).__name__}: {e} for {exprs}', repro=rp, detail=dict(source=src, route=code))
+        return
+    if env['got'] != env['before']:
+        i = next(i for i in range(len(env['got'])) if env['got'][i] != env['before'][i])
+        ctx.fail('property', site, icls, f'member {exprs[i]} of {exprs} came back as {env["got"][i]!r}, was {env["before"][i]!r}', repro=rp, detail=dict(source=src, route=code))
+    elif env['after'] != env['before']:
+        ctx.fail('property', site, icls, f'the round trip changed the original {exprs}', repro=rp, detail=dict(source=src, route=code))
+    elif env['alias']:
+        ctx.fail('property', site, icls, f'one object held twice came back as two objects: {env["alias"]} of {exprs}', repro=rp, detail=dict(source=src, route=code))
+    elif kind == 'BQM' and 'bqm' in exprs and rname != 'copy.copy':
+        # the round-tripped model owns its own view: edit the copy, its view follows and the original's view does not
+        i = items[exprs.index('bqm')]
+        code2 = (code + f'\nc = new[{i}]\nwant_old = table(bqm.{o})\nc.offset += 2\nfor v in list(c.variables)[:1]:\n    c.add_linear(v, 1.5)\n'
+                 f'view_ok = table(c.{o}) == table(c.change_vartype({o.upper()!r}, inplace=False)) and table(bqm.{o}) == want_old')
+        ctx.tick('graph BQM: view of the round-tripped model after an edit')
+        try:
+            ok2 = run_route(src, code2)['view_ok']
+        except Exception as e:  # noqa
+            ok2 = False
+        if not ok2:
+            ctx.fail('property', site, 'vartype view of the round-tripped model (attribute cache)', f'after an edit of the copy its .{o} view does not show the copy (or the original\'s view changed); members {exprs}',
+                     repro=PRE + src + '\n' + code2 + '\nassert view_ok', detail=dict(source=src, route=code2))
+
+
 def run(ctx):
     r = ctx.rng
     ctx.rule = ('random BQMs (3 classes, 8 label pools incl. nested tuples, floats and unsortable mixes, isolated variables, zero biases) x 8 routes; '
@@ -707,6 +858,8 @@ def run(ctx):
         check_info(ctx, r, lines, expect, meta)
     for _ in range(ctx.scale(800, 8000)):
         check_coo(ctx, r, lines, expect, meta)
+    for _ in range(ctx.scale(1200, 12000)):
+        check_graph(ctx, r)
     tlines, texpect, tmeta = [], [], []
     for _ in range(ctx.scale(800, 8000)):
         check_coo_text(ctx, r, tlines, texpect, tmeta)
